@@ -112,8 +112,34 @@ Fixpoint hop_run (m : mstate) (ops : list hop) : list vl :=
   | op :: r => let m' := hop_step cap m op in VS (mdisk m') :: hop_run m' r
   end.
 
+(* kind 5 with room = 0: the file cannot grow by a single byte while the first n_full records are appended (every
+   write(2) fails: the script is IoErr as often as needed), then the disk works again (empty script = accepts all);
+   dropping the appender flushes what is still buffered.  Result ((ok ...) final-file). *)
+Fixpoint full_run (st : fstate) (n_full : nat) (rs : list record) : list bool * fstate :=
+  match rs with
+  | [] => ([], st)
+  | r :: rest =>
+    let st0 := match n_full with O => mkF (disk st) (buf st) [] | S _ => st end in
+    let rs1 := append cap st0 r in
+    let '(oks, stf) := full_run (res_state rs1) (Nat.pred n_full) rest in
+    (res_ok rs1 :: oks, stf)
+  end.
+
 Definition c04_run (v : vl) : vl :=
   match v with
+  | VL [VN 5; VN a; pre; VN 0; VN n_full; recs] =>
+    match dec_pre pre, val_list dec_chunks recs with
+    | Some p, Some rs =>
+      match fa_open (negb (a =? 0)) p (repeat IoErr 4000) with
+      | Some st =>
+        let '(oks, stf) := full_run st (N.to_nat n_full) rs in
+        let stl := mkF (disk stf) (buf stf) [] in
+        VL [VL (map VB oks); VS (disk (snd (bw_flush stl)))]
+      | None => VBad
+      end
+    | _, _ => VBad
+    end
+  | VL (VN 5 :: _) => VL []          (* room > 0: judged by the direct oracle only (no byte-budget script) *)
   | VL [VN 0; VN enc; VN a; pre; ops] =>
     match dec_pre pre, val_list dec_sop ops with
     | Some p, Some l =>
